@@ -104,7 +104,24 @@ def inline(
             exc_succ = [(y, k) for y, k in src.succ[n.id] if k == "exc"]
             cancel_succ = [(y, k) for y, k in src.succ[aw.id] if k == "cancel"] if aw is not None else []
             for t in targets:
+                first_new = len(g.nodes)
                 sub = emit(t, stack + (f"{func.short()}:{n.lineno}",), d - 1, active | {t.qualname})
+                for rn in g.nodes[first_new:]:
+                    if rn.kind == "return" and rn.func is t and "ret_site" not in rn.meta and isinstance(rn.ast, ast.Return):
+                        rn.meta["ret_site"] = id(n.ast)
+                        v = rn.ast.value
+                        if v is None or (isinstance(v, ast.Constant) and v.value is None):
+                            rn.meta["ret_none"] = True
+                        elif isinstance(v, ast.IfExp):
+                            rn.meta["ret_none"] = None
+                        elif isinstance(v, ast.Name):
+                            # a local whose every definition is a non-None expression (e.g. the result of queue.get_nowait())
+                            defs = [x.value for x in ast.walk(t.node) if isinstance(x, ast.Assign) and any(isinstance(tt, ast.Name) and tt.id == v.id for tt in x.targets)]
+                            known = bool(defs) and all(not (isinstance(dv, ast.Constant) and dv.value is None) and not isinstance(dv, (ast.IfExp, ast.Name)) for dv in defs) \
+                                and v.id not in [a.arg for a in t.params()]
+                            rn.meta["ret_none"] = False if known else None
+                        else:
+                            rn.meta["ret_none"] = False
                 g.edge(me, sub["entry"], "n")
                 for y, k in normal_succ:
                     g.edge(sub["exit"], mapping[y], k)
@@ -252,7 +269,24 @@ def traces(
     for n in g.nodes:
         if n.kind == "store" and n.target is not None and f"{id(n.func.node)}:{n.target}" in corr_names:
             corr_store[n.id] = f"{id(n.func.node)}:{n.target}"
-    relevant = set(sym) | set(exits) | set(corr_test) | set(corr_store)
+    # return value correlation: an inlined callee returning None / not None decides a following `(x := f()) is None` test
+    ret_nodes: dict[int, tuple[int, bool]] = {}
+    for n in g.nodes:
+        if n.kind == "return" and n.meta.get("ret_site") is not None and n.meta.get("ret_none") is not None:
+            ret_nodes[n.id] = (n.meta["ret_site"], bool(n.meta["ret_none"]))
+    sites = {sid for sid, _ in ret_nodes.values()}
+    ret_test: dict[int, tuple[int, bool]] = {}
+    for n in g.nodes:
+        if n.kind == "test" and isinstance(n.ast, ast.Compare) and len(n.ast.ops) == 1 and isinstance(n.ast.ops[0], (ast.Is, ast.IsNot)) \
+                and isinstance(n.ast.comparators[0], ast.Constant) and n.ast.comparators[0].value is None:
+            l = n.ast.left
+            if isinstance(l, ast.NamedExpr):
+                l = l.value
+            if isinstance(l, ast.Await):
+                l = l.value
+            if isinstance(l, ast.Call) and id(l) in sites:
+                ret_test[n.id] = (id(l), isinstance(n.ast.ops[0], ast.IsNot))
+    relevant = set(sym) | set(exits) | set(corr_test) | set(corr_store) | set(ret_nodes) | set(ret_test)
 
     nxt_cache: dict[int, list[tuple[int, str]]] = {}
 
@@ -303,6 +337,15 @@ def traces(
             raise AnalysisError(f"trace enumeration exploded in {g.func.qualname}")
         for y, k0 in nxt(x):
             nval = val
+            if x in ret_test and k0 in ("T", "F"):
+                site, neg = ret_test[x]
+                d0 = dict(val)
+                key0 = f"$ret:{site}"
+                if key0 in d0:
+                    is_none = d0[key0]
+                    taken_true = (k0 == "T")
+                    if taken_true != (is_none != neg):
+                        continue
             if x in corr_test and k0 in ("T", "F"):
                 name, neg = corr_test[x]
                 outcome = (k0 == "T") != neg
@@ -321,6 +364,11 @@ def traces(
             nc[y] = c + 1
             if y in corr_store:
                 nval = tuple((a, b) for a, b in nval if a != corr_store[y])
+            if y in ret_nodes:
+                site, is_none = ret_nodes[y]
+                d1 = dict(nval)
+                d1[f"$ret:{site}"] = is_none
+                nval = tuple(sorted(d1.items()))
             ntr = tr + ((sym[y],) if y in sym else ())
             if y in sym and stop is not None and stop(g.nodes[y]):
                 results.add(ntr + (("$stop",) if with_exit else ()))
